@@ -169,6 +169,11 @@ Inductive den (ro : ro_t) : opR -> space -> space -> scr_t -> (list R -> list R)
 | D_ProxL1_g sp sig lam v dv : (sig * lam <> 0)%R -> In (v, sp, dv) ro ->
     den ro (Op cls_ProximalL1_g sp (RSp sp) [Some sig; Some lam] [v] [] []) sp sp []
         (fun d => rlin (qr (1 # 1)) (qr ((-1) # 1)) d (soft (sig * lam) (rlin 1 (-1) d dv)))
+| D_ProxCCL1 sp sig lam : (0 < lam)%R ->
+    den ro (Op cls_ProximalConvexConjL1 sp (RSp sp) [Some sig; Some lam] [] [] []) sp sp [] (fun d => ccl1 lam d)
+| D_ProxCCL1_g sp sig lam v dv : (0 < lam)%R -> In (v, sp, dv) ro ->
+    den ro (Op cls_ProximalConvexConjL1_g sp (RSp sp) [Some sig; Some lam] [v] [] []) sp sp []
+        (fun d => ccl1 lam (rlin (qr (1 # 1)) (- sig) d dv))
 | D_BoxBoth sp lo hi :
     den ro (Op cls_ProxBox_both sp (RSp sp) [Some lo; Some hi] [] [] []) sp sp []
         (fun d => map (fun v => Rmin v hi) (map (fun v => Rmax v lo) d))
@@ -275,6 +280,10 @@ Proof.
     apply cls_vec_ok_ip; [reflexivity | reflexivity | apply prox_l1_ip; exact Hnz].
   - intros sp sig lam v dv Hnz Iv. cbn [sem map]. split; [reflexivity|].
     apply cls_vec_ok_ip; [reflexivity | reflexivity | apply prox_l1_g_ip; assumption].
+  - intros sp sig lam Hl. cbn [sem map]. split; [reflexivity|].
+    apply cls_vec_ok_ip; [reflexivity | reflexivity | apply prox_cc_l1_ip; exact Hl].
+  - intros sp sig lam v dv Hl Iv. cbn [sem map]. split; [reflexivity|].
+    apply cls_vec_ok_ip; [reflexivity | reflexivity | apply prox_cc_l1_g_ip; assumption].
   - intros sp lo hi. cbn [sem map]. split; [reflexivity|].
     apply cls_vec_ok_ip; [reflexivity | reflexivity | apply box_both_ip].
   - intros sp lo hi. cbn [sem map]. split; [reflexivity|].
